@@ -68,6 +68,12 @@ def run(name, tiers=("quick", "thorough")):
         res["demo_passes_unchanged"] = rc0 == 0
         res["demo_fails_patched"] = rc1 != 0
         os.remove(demo_dst)
+        if rc0 == 0 and rc1 == 0:
+            # the tree moved on (a later fix closed the hole this change relied on): the change no longer breaks the
+            # property — its own demonstration passes — so there is nothing for the checks to find
+            res["detected_by"] = "n/a"
+            res["neutralised"] = "the author's demonstration passes with the change applied to the current tree: a later fix: commit in /repo removed what the change relied on"
+            return res
         # 2. existing suite + build with the patch
         rcb, outb = sh("go build ./... && go test -vet=off -count=1 ./...", cwd=REPO, timeout=1800)
         res["suite_passes_patched"] = rcb == 0
